@@ -51,6 +51,7 @@ type Ctx struct {
 	cur        int
 	progress   *os.File
 	Exhaustive bool
+	ResultPath string // where the child writes its result (set by the driver)
 }
 
 func NewCtx(prop, tier string, seed int64, batch int) *Ctx {
@@ -120,6 +121,16 @@ func (c *Ctx) Inconclusive(why string) {
 		c.Inconcl = append(c.Inconcl, why)
 	}
 	c.mu.Unlock()
+}
+
+// Finish writes the result file now and ends the child process. Used after a wedge
+// was recorded: a library goroutine that never returns would otherwise keep the
+// child (and Server.Close) waiting for ever.
+func (c *Ctx) Finish() {
+	if c.ResultPath != "" {
+		WriteJSON(c.ResultPath, c.Result())
+		os.Exit(0)
+	}
 }
 
 func (c *Ctx) NViol() int {
